@@ -105,6 +105,9 @@ func scenario(c *run.Ctx, idx int, fixed bool) {
 	if idx%4 == 3 {
 		nBlocks = 2*scn.Term + 2
 	}
+	// every third scenario: late registrations that become stable together with an empty block behind them
+	lateReg := idx%3 == 1 && !fixed
+	holdStable := 0 // > 0: this block is not stabilised on its own
 	for bi := 0; bi < nBlocks; bi++ {
 		t := cl.NextTime()
 		h := cl.Head.Height() + 1
@@ -150,6 +153,20 @@ func scenario(c *run.Ctx, idx int, fixed bool) {
 			cands = []scn.Cand{cl.G.C(cl.G.B.Vote(voter, low, uint64(t)+900), "vote", "ok")}
 		case !fixed && deputynode.IsSnapshotBlock(h) && idx%2 == 0:
 			cands = nil // half of the scenarios keep snapshot blocks empty so that later terms are reached
+		case lateReg && (bi == 4 || bi == 8) && !deputynode.IsSnapshotBlock(h) && !deputynode.IsSnapshotBlock(h+1):
+			// a candidate registers late; the next block is empty and both become stable together, then node R restarts
+			u := map[int]int{4: 3, 8: 7}[bi]
+			k := cl.W.Users[u]
+			if !cl.G.Cands[u] && !cl.G.Unreg[u] {
+				cl.G.Cands[u] = true
+				cands = []scn.Cand{cl.G.C(cl.G.B.Register(k, fx.Profile(k, fx.NewKey("candidate-income", u).Addr, true, "late"), fx.LEMO(int64(1000+50*u)), uint64(t)+900), "register", "ok")}
+				holdStable = 2
+				c.Stat("late_registrations_followed_by_an_empty_block", 1)
+			} else {
+				cands = cl.G.Next(t, h, r.Range(2, 8))
+			}
+		case holdStable == 1:
+			cands = nil // the empty block behind a late registration
 		default:
 			cands = cl.G.Next(t, h, r.Range(2, 8))
 		}
@@ -173,13 +190,21 @@ func scenario(c *run.Ctx, idx int, fixed bool) {
 		c.Case(fmt.Sprintf("d%d h%d %s", nDep, blk.Height(), shape), len(blk.Txs) >= 2, map[string]interface{}{"scenario": idx, "height": blk.Height(), "candidates": shape,
 			"included": len(blk.Txs), "top": mon.TopString(mon.RepoTop(cl.Nodes[0], blk.Hash()))})
 		cl.Adopt(blk)
-		if cl.MustStabiliseSoon() || r.Chance(1, 2) {
+		forceRestart := false
+		if holdStable > 0 {
+			holdStable--
+			forceRestart = holdStable == 0
+		}
+		if holdStable > 0 && !cl.MustStabiliseSoon() {
+			continue
+		}
+		if cl.MustStabiliseSoon() || forceRestart || r.Chance(1, 2) {
 			if !cl.StabiliseAll() {
 				c.Stat("scenario_stuck_unstabilisable", 1)
 				break
 			}
 			// restart node R at a quiescent point
-			if r.Chance(1, 3) {
+			if forceRestart || r.Chance(1, 3) {
 				R.Reopen()
 				st.restarted = true
 				c.Stat("restarts", 1)
